@@ -67,34 +67,17 @@ impl InstructionGenerator {
                 self.push(Instruction::CopyAToB, pos);
                 // step back to A
                 self.push(Instruction::CopyDToA, pos);
-                // is step < 0 ?
-                self.push(Instruction::Less, pos);
-                self.jump_if_false("test-positive-or-zero", pos);
-                // negative step
-                self.generate_for_loop_instructions_positive_or_negative_step(
-                    &counter_var_name,
-                    statements.clone(),
-                    false,
-                    pos,
-                );
-                // jump out
-                self.jump("out-of-for", pos);
-                // PositiveOrZero: ?
-                self.label("test-positive-or-zero", pos);
-                // need to load it again into A because the previous "LessThan" op overwrote A
-                self.push(Instruction::CopyDToA, pos);
-                // is step > 0 ?
-                self.push(Instruction::Greater, pos);
+                // is step <> 0 ?
+                self.push(Instruction::NotEqual, pos);
                 self.jump_if_false("zero", pos);
-                // positive step
+                // the direction of the loop is decided by the sign of the step at run time
+                // (the loop body is generated only once)
                 self.generate_for_loop_instructions_positive_or_negative_step(
                     &counter_var_name,
                     statements,
-                    true,
+                    None,
                     pos,
                 );
-                // jump out
-                self.jump("out-of-for", pos);
                 // Zero step
                 self.label("zero", pos);
                 self.push(Instruction::Throw(RuntimeError::ForLoopZeroStep), step_pos);
@@ -107,7 +90,7 @@ impl InstructionGenerator {
                 self.generate_for_loop_instructions_positive_or_negative_step(
                     &counter_var_name,
                     statements,
-                    true,
+                    Some(true),
                     pos,
                 );
                 self.label("out-of-for", pos);
@@ -119,24 +102,28 @@ impl InstructionGenerator {
         &mut self,
         counter_var_name: &Expression,
         statements: Statements,
-        is_positive: bool,
+        // Some(true) for a step known to be positive, None if the sign is known only at run time
+        is_positive: Option<bool>,
         pos: Position,
     ) {
-        let loop_label = if is_positive {
-            "positive-loop"
-        } else {
-            "negative-loop"
-        };
+        let loop_label = "for-loop";
         // loop point
         self.label(loop_label, pos);
-        // upper bound from C to B
-        self.push(Instruction::CopyCToB, pos);
-        // counter to A
-        self.load_counter(counter_var_name, pos);
-        if is_positive {
-            self.push(Instruction::LessOrEqual, pos);
-        } else {
-            self.push(Instruction::GreaterOrEqual, pos);
+        match is_positive {
+            Some(is_positive) => self.generate_for_loop_test(counter_var_name, is_positive, pos),
+            None => {
+                // is step (D) < 0 ?
+                self.push_load(Variant::VInteger(0), pos);
+                self.push(Instruction::CopyAToB, pos);
+                self.push(Instruction::CopyDToA, pos);
+                self.push(Instruction::Less, pos);
+                self.jump_if_false("positive-step", pos);
+                self.generate_for_loop_test(counter_var_name, false, pos);
+                self.jump("step-tested", pos);
+                self.label("positive-step", pos);
+                self.generate_for_loop_test(counter_var_name, true, pos);
+                self.label("step-tested", pos);
+            }
         }
         self.jump_if_false("out-of-for", pos);
 
@@ -163,6 +150,24 @@ impl InstructionGenerator {
 
         // back to loop
         self.jump(loop_label, pos);
+    }
+
+    /// Compares the counter (A) with the upper bound (B).
+    fn generate_for_loop_test(
+        &mut self,
+        counter_var_name: &Expression,
+        is_positive: bool,
+        pos: Position,
+    ) {
+        // upper bound from C to B
+        self.push(Instruction::CopyCToB, pos);
+        // counter to A
+        self.load_counter(counter_var_name, pos);
+        if is_positive {
+            self.push(Instruction::LessOrEqual, pos);
+        } else {
+            self.push(Instruction::GreaterOrEqual, pos);
+        }
     }
 
     pub fn generate_do_loop_instructions(&mut self, do_loop: DoLoop, pos: Position) {
